@@ -77,6 +77,11 @@ CLAIMED = {
    note="Bounds: axis length <=3, one operation (two in thorough) per history, index arguments enumerated (ints, duplicate lists, slices), optional label arrays absent in thorough; strings represented by integer constants; cross-source blocks of square matrices not exercised.",
    technique="symbolic execution on z3-term arrays (symnp): term-identity attachment against a row-tuple reference model + z3 for ordering/grouping clauses; replay on real numpy",
    design="2/C03"),
+   "C05": dict(
+   text="Bounded symbolic model checking of the real selection-problem classes: for 13 criterion families (EBV, GEBV, weighted and generalised-weighted GEBV, EMBV, random, optimal haploid value, usefulness criterion, family EBV, optimal contribution, mean genomic relationship, mean expected heterozygosity, L2-norm) x the Subset/Integer/Binary/Real encodings the latent vector computed by latentfn on symbolic data and symbolic decision vectors is proved equal to the criterion's independently written definition (norm-valued criteria through their squares), the four encodings of the same contributions give identical vectors, the value is invariant under the order of the subset listing and positive rescaling, it follows a reassignment of the problem's data, evalfn/_evaluate equal the declared weights times the declared transformations (with distinct kwargs per transformation), and factory-built problems hold the population's values in taxon order (kinship factor: C'C = kinship by the Cholesky contract).",
+   note="Bounds: candidates<=3 (4), subset<=2 (3), traits<=2; contribution sum >= 1e-3; sqrt/cholesky/eigvals by contract; L1-norm, allele-frequency-distance/unavailability, multi-objective-genomic, OPV and genotype-builder latent functions are not encoded; EMBV/UC/OHV tables are given data here.",
+   technique="symbolic execution on z3-term arrays (symnp) + z3 (QF_NRA) identities; contract stubs for sqrt/cholesky/eigvals; replay on real numpy",
+   design="2/C05"),
 }
 NA = {}
 for pid in props:
